@@ -19,6 +19,14 @@ CHECKS = {
    text="Differential test of a one-shard Cache against five reference models written from the documented rules and the SIEVE / S3-FIFO / W-TinyLFU papers; compared observable is the ordered (Evict,key) sequence of every operation and the resident set after it. Set-valued only where the documentation is silent. Bounded-exhaustive (depth 3-5) plus random histories up to 400 ops over 50 configurations (pool/queue ratios, thresholds, sketch sizes small enough to reach halving).",
    note="Single shard, single thread; the count-min sketch implementation (datasketches) is shared with foyer and trusted; clear() is outside the C14 alphabet.",
    technique="differential property testing against reference eviction models (bounded-exhaustive + proptest random)"),
+ "C06": dict(engine="fetchsim", category="exploration", design="§5 C06, §3.3",
+   text="fetchsim: the harness owns caller arrival, resolution of each disk lookup (hit/miss/error) and origin fetch (ok/error), when the fetch tasks run, caller drops, cancellation (runtime drop) and concurrent insert/remove; a reference state machine of the single-flight protocol predicts for every caller whether and with what it must be answered at each settle point, which futures may have been polled, and the cache content. Bounded-exhaustive over a 16-op alphabet to depth 5/6 x five algorithms + random histories over two keys. Hangs are decided by quiescence (everything resolved, tasks idle, caller still pending), not by timers.",
+   note="Memory-only Cache with a harness 'disk lookup' future plugged into get_or_fetch_inner exactly as HybridCache does; tasks run on a harness-driven current-thread runtime (no OS-thread races). Error kind for a cancelled flight may be TaskCancelled or ChannelClosed.",
+   technique="model-based property testing with a harness-owned schedule (bounded-exhaustive + proptest random) against a protocol state machine"),
+ "C11": dict(engine="fetchsim", category="exploration", design="§5 C11",
+   text="Same engine, alphabet {fetch starts, insert returns, fetch resolves ok/err, lookups, remove, settle}: every caller waiting when insert(k,v) returns must receive v; results of fetches (or disk lookups) that belonged to a flight closed by an explicit insert must never surface in the cache or at a later caller. Exhaustive depth 5/6 x five algorithms + random.",
+   note="The insert has returned before the late result is released (harness owns the order); truly simultaneous insert/resolve on two threads is not explored.",
+   technique="model-based property testing with a harness-owned schedule (bounded-exhaustive + proptest random)"),
 }
 
 NOT_YET = {
@@ -61,7 +69,9 @@ def main():
         },
         "engines": [
             {"name": "memsim", "path": "/verif/harness/core/src/memsim.rs", "serves_properties": ["C05", "C13", "C14", "C18"],
-             "kind_free_text": "single-threaded interpreter for foyer::Cache histories + event-driven reference model (memoracle.rs)"},
+             "kind_free_text": "single-threaded interpreter for foyer::Cache histories + event-driven reference model (memoracle.rs) + eviction reference models (evmodel.rs)"},
+            {"name": "fetchsim", "path": "/verif/harness/core/src/fetchsim.rs", "serves_properties": ["C06", "C11"],
+             "kind_free_text": "manual executor for get_or_fetch histories: harness futures for disk lookup / origin fetch, harness-driven runtime, protocol state machine as oracle"},
         ],
         "checks": checks,
         "not_applicable": na,
